@@ -44,7 +44,7 @@ def gen(rng, tier):
     knobs = L.gen_knobs(rng, small_ok=transport == "popen")
     if transport != "popen" and knobs["pipe_cap"] < 4096:
         knobs["pipe_cap"] = 4096
-    mode = rng.choice(["body", "body", "cb_i", "cb_w", "cb_w_dropped", "cb_i_dropped"])
+    mode = rng.choice(["body", "body", "cb_i", "cb_w", "cb_w_dropped", "cb_i_dropped", "body_late"])
     j = rng.randrange(0, 5)
     extra = rng.randrange(0, 3)
     actors = [{"side": "i", "gw": gwi, "chan": None, "ops": []}]
@@ -63,6 +63,42 @@ def gen(rng, tier):
     W = new_actor("w")
     add(0, ["exec", "c0", W, gwi], "chan")
     local = []
+    if mode == "body_late":
+        # the error is fetched only after the connection has ended (results collected after terminate / after the
+        # worker was killed): it is still the RemoteError, once, after the items - not the connection's EOFError
+        for k in range(j):
+            add(W, ["send", "c0", f"c0:w2i:{W}:{k}", L.gen_fill(rng)], "ok")
+        add(W, ["raise", "body boom"], "raised")
+        add(0, ["poll_closed", "c0", 400], "true")
+        faults = []
+        how = rng.choice(["terminate", "terminate", "kill"])
+        if how == "terminate":
+            add(0, ["terminate", 10.0], "any")
+        else:
+            # SIGKILL for the worker once the close has been seen, then wait for the receiver thread to end
+            faults.append({"at": ["op", 0, len(actors[0]["ops"]) - 1, "ret"],
+                           "do": ["kill", "w2" if transport in ("socket", "proxy") else "w1"]})
+            add(0, ["gwjoin", 60.0], "any")
+        style = rng.choice(["recv", "waitclose"])
+        if style == "recv":
+            for k in range(j):
+                add(0, ["recv", "c0"], "item")
+            add(0, ["recv", "c0"], "remote:BodyError")
+            add(0, ["recv", "c0"], "eof")
+        else:
+            add(0, ["waitclose", "c0", 60], "remote:BodyError")
+            for k in range(j):
+                add(0, ["recv", "c0"], "item")
+            add(0, ["recv", "c0"], "eof")
+        add(0, ["isclosed", "c0"], "true")
+        if how != "terminate":
+            add(0, ["terminate", 10.0], "any")
+        return {"gateways": specs, "actors": actors, "expect": {str(k): val for k, val in expect.items()},
+                "knobs": knobs, "strategy": L.gen_strategy(rng), "preempt": L.gen_preempt(rng, 3000),
+                "preempt_at": L.gen_preempt_at(rng, ["_local_close", "close", "executetask", "_getremoteerror", "waitclose",
+                                                     "receive", "_thread_receiver", "_finished_receiving"]),
+                "faults": faults, "transport": transport, "backend": backend, "gwi": gwi, "mode": mode, "failpos": j,
+                "errtext_limit": 3000}
     if mode == "body":
         for k in range(j):
             add(W, ["send", "c0", f"c0:w2i:{W}:{k}", L.gen_fill(rng)], "ok")
